@@ -85,26 +85,26 @@ type caseJ struct {
 	Calls  []callJ  `json:"calls"`
 	Faults []faultJ `json:"faults,omitempty"`
 	// observed (informative in replays)
-	Obs        []obsJ `json:"obs,omitempty"`
-	Fin        *finJ  `json:"fin,omitempty"`
+	Obs        []obsJ   `json:"obs,omitempty"`
+	Fin        *finJ    `json:"fin,omitempty"`
 	Applied    []string `json:"applied_injections,omitempty"`
-	FindingKey string `json:"finding_key,omitempty"`
+	FindingKey string   `json:"finding_key,omitempty"`
 }
 
 type obsJ struct {
-	Err, Intr                                bool
-	Phase                                    int
-	Inbound, RbErr, RbPErr, MpStrict         bool
-	P2                                       int
-	E                                        bool
-	NTmp, NFiles                             int
-	Len, MemLen                              int
-	Spilled                                  bool
-	Logs                                     []string
-	Tmp, Up                                  []int
-	Open                                     int
-	ErrText                                  string `json:",omitempty"`
-	Panic                                    string `json:",omitempty"`
+	Err, Intr                        bool
+	Phase                            int
+	Inbound, RbErr, RbPErr, MpStrict bool
+	P2                               int
+	E                                bool
+	NTmp, NFiles                     int
+	Len, MemLen                      int
+	Spilled                          bool
+	Logs                             []string
+	Tmp, Up                          []int
+	Open                             int
+	ErrText                          string `json:",omitempty"`
+	Panic                            string `json:",omitempty"`
 }
 
 type finJ struct {
@@ -678,7 +678,8 @@ func oracles(c *caseJ, out *runOut, we *wafEnv, tx2 *corazawaf.Transaction, preT
 	var fails []vh.OracleFailure
 	bad := func(key, what string) { fails = append(fails, vh.OracleFailure{Key: key, What: what, Case: c}) }
 	prev := obsJ{}
-	hadErr := false // an earlier call already reported a failure to the caller
+	hadErr := false      // an earlier call already reported a failure to the caller
+	interrupted := false // an interruption exists (deny rule or body limit Reject)
 	for i, k := range c.Calls {
 		o := out.obs[i]
 		switch k.K {
@@ -698,7 +699,17 @@ func oracles(c *caseJ, out *runOut, we *wafEnv, tx2 *corazawaf.Transaction, preT
 			}
 			fallthrough
 		case "p":
-			processed := prev.Phase == 1 && o.Phase == 2 && o.Len > 0
+			// ProcessRequestBody reached the body processor (directly, or through the ProcessPartial path)
+			attempted := prev.Phase == 1 && !interrupted && !o.Err &&
+				((k.K == "p" && prev.Len > 0) || (k.K == "w" && !c.Cfg.Reject && o.Inbound && o.Len > 0 && int64(prev.Len) != c.Cfg.Limit))
+			if k.K == "p" && prev.Phase == 1 && !interrupted {
+				attempted = attempted || prev.Len == 0
+			}
+			// phase 2 always runs, whatever failed
+			if attempted && (o.Phase != 2 || o.P2 != prev.P2+1) {
+				bad("c20-phase2-not-run", fmt.Sprintf("call %d: ProcessRequestBody ran in phase 1 without interruption but phase %d, phase-2 rule runs %d->%d", i, o.Phase, prev.P2, o.P2))
+			}
+			processed := attempted && o.Len > 0 && (k.K == "w" || prev.Len > 0)
 			// a failed read of the spilled body is never taken for an inspected body
 			if processed && k.K == "p" && prev.Spilled && hasFault(c, out, i, "hswap") && c.Cfg.Proc != "none" {
 				if !o.RbErr || !o.RbPErr || o.P2 != prev.P2+1 || !o.E || !contains(o.Logs, "LgProc") {
@@ -747,6 +758,7 @@ func oracles(c *caseJ, out *runOut, we *wafEnv, tx2 *corazawaf.Transaction, preT
 		}
 		prev = o
 		hadErr = hadErr || o.Err
+		interrupted = interrupted || o.Intr
 	}
 	at := len(c.Calls)
 	// faults that hit Close come back from Close
